@@ -73,6 +73,20 @@ def run(ck):
                 MG.Def(mname, no + 'Al', 'alias', '%sAl ::= %sAl' % (no, nm))]
         ms2.modules = [(mname, {'tagging': '', 'ext': False}, defs)]
         inputs.append(ms2)
+        # steps of the linker that still read the current state of another definition: COMPONENTS OF an instance of a
+        # parameterized type, a selection of an alternative that itself uses COMPONENTS OF, a contained subtype through an alias
+        ms3 = MG.ModuleSet()
+        mname = 'Lnk3%d' % oi
+        defs = [MG.Def(mname, nb + 'Tpl', 'template', '%sTpl {T} ::= SEQUENCE { a T, b BOOLEAN }' % nb, status=MG.NO_OUTPUT),
+                MG.Def(mname, nm + 'Inst', 'instance', '%sInst ::= %sTpl { INTEGER }' % (nm, nb), deps=[nb + 'Tpl']),
+                MG.Def(mname, no + 'Incl', 'components-of', '%sIncl ::= SEQUENCE { z NULL, COMPONENTS OF %sInst }' % (no, nm), deps=[nm + 'Inst']),
+                MG.Def(mname, nb + 'Ch', 'choice', '%sCh ::= CHOICE { alt SEQUENCE { k NULL, COMPONENTS OF %sInst }, other NULL }' % (nb, nm), deps=[nm + 'Inst']),
+                MG.Def(mname, no + 'Sel', 'selection', '%sSel ::= alt < %sCh' % (no, nb), deps=[nb + 'Ch']),
+                MG.Def(mname, nm + 'Rng', 'int', '%sRng ::= INTEGER (0..%d)' % (nm, 10 + oi)),
+                MG.Def(mname, nb + 'Rn2', 'alias', '%sRn2 ::= %sRng (2..8)' % (nb, nm), deps=[nm + 'Rng']),
+                MG.Def(mname, no + 'Cnt', 'int', '%sCnt ::= INTEGER (%sRn2)' % (no, nb), deps=[nb + 'Rn2'])]
+        ms3.modules = [(mname, {'tagging': 'AUTOMATIC TAGS', 'ext': False}, defs)]
+        inputs.append(ms3)
     # inputs that raise warnings (the multiset of warnings is part of the result), and a module that imports several values whose
     # governing types it does not import (the linker adds those types to the import list itself)
     for wi in range(4 if quick else 24):
